@@ -12,6 +12,9 @@ Line protocol for the CAIT model (drivers `driver_c10` / `driver_c11`).
 
   request `match <ptree> <stree>`          -> `ok <n> match*`
   request `embed <ptree> <stree> <n> match*` -> `ok (0|1)*`   (checkMatch on matches of the REAL code)
+  request `gen <ptree> <stree> <nrho> (<key:x> <id:x>)* <neps> (<key:x> <path>)* <nal> (<pp> <sp>)*`
+                                           -> `ok 1` iff genCase (the hypotheses of the C11 theorem hold for this
+                                              derived pattern), else `ok 0 <why>` (`why` is a diagnostic only)
 -/
 namespace Pedal.Cait
 open Pedal.Wire
@@ -147,9 +150,57 @@ def handleEmbed (ts : List String) : String :=
     " ".intercalate ("ok" :: ms.map fun m => if checkMatch p s m.1 m.2 then "1" else "0")
   | none => "bad-request"
 
+def parseRho : List String → Option ((String × String) × List String)
+  | k :: v :: ts => do
+    let k ← decStr k
+    let v ← decStr v
+    pure ((k, v), ts)
+  | _ => none
+
+/-- why `genCase` is false (diagnostic for the evidence; the verdict itself is `genCase`) -/
+def genCaseWhy (p s : T) (rho : List (String × String)) (eps : List (String × Path)) (al : List (Path × Path)) :
+    String :=
+  let pr := trimGo p []
+  let sr := trimRoot s
+  if !opLeaves p then "opLeaves" else
+  match dictGet pr.2 al with
+  | none => "root-not-aligned"
+  | some P =>
+    if !sr.2.isPrefixOf P then "partner-above-trimmed-root" else
+    match sr.1.at? (P.drop sr.2.length) with
+    | none => "no-such-node"
+    | some t =>
+      if !genChk rho eps al pr.2 pr.1 P t then "genChk"
+      else if !(rootField p = "none" || rootField p = t.field) then "root-field" else "?"
+
+def handleGen (ts : List String) : String :=
+  match (do
+    let (p, ts) ← parseTree (ts.length + 1) ts
+    let (s, ts) ← parseTree (ts.length + 1) ts
+    match ts with
+    | n :: ts =>
+      let n ← n.toNat?
+      let (rho, ts) ← takeN parseRho n ts
+      match ts with
+      | n :: ts =>
+        let n ← n.toNat?
+        let (eps, ts) ← takeN parseExp n ts
+        match ts with
+        | n :: ts =>
+          let n ← n.toNat?
+          let (al, ts) ← takeN parsePair n ts
+          if ts.isEmpty then pure (p, s, rho, eps, al) else none
+        | [] => none
+      | [] => none
+    | [] => none) with
+  | some (p, s, rho, eps, al) =>
+    if genCase p s rho eps al then "ok 1" else "ok 0 " ++ genCaseWhy p s rho eps al
+  | none => "bad-request"
+
 def dispatch : List String → String
   | "match" :: ts => handleMatch ts
   | "embed" :: ts => handleEmbed ts
+  | "gen" :: ts => handleGen ts
   | _ => "bad-request"
 
 end Pedal.Cait
